@@ -104,6 +104,26 @@ func runC08(env *Env, rc *RunCtx) {
 	if depth != nil {
 		gdepth = *depth
 	}
+	// pre-flight inside the scheduler bubble: a check that needs thousands of
+	// storage calls (exponential re-evaluation of duplicated operands at depth
+	// 1000) is not a hang, but it is not worth a transport comparison either
+	cheap := func(x Tuple) bool {
+		if !known[x.NS] || (x.Sub.Set != nil && !known[x.Sub.Set.NS]) || x.Sub.Nil {
+			return true
+		}
+		its, err := env.Internal(x)
+		if err != nil {
+			return true
+		}
+		plan := NoFaults()
+		plan.MaxSteps = 1500
+		r := env.Exec(NewTape(Mix(rc.execSeed, 4242)), []*Request{{Kind: "check", Tuple: its[0]}}, plan)
+		return r.Returned
+	}
+	if !cheap(q) {
+		rc.Rec.Skipped = "too-expensive"
+		return
+	}
 	// engine decision
 	var D bool
 	engineErr := ""
@@ -223,6 +243,12 @@ func runC08(env *Env, rc *RunCtx) {
 	}
 	// single-check decision of every valid entry (through the openapi endpoint, already compared above for q)
 	single := make([]*bool, n)
+	for _, e := range entries {
+		if e.Valid && !cheap(e.T) {
+			rc.Rec.Skipped = "too-expensive"
+			return
+		}
+	}
 	for i, e := range entries {
 		if !e.Valid {
 			continue
